@@ -213,11 +213,38 @@ def _pass_replay(name, m):
             spec = dict(transition=lambda: inn.transition(s.env_state, A(a), key=k), observation=lambda: O(inn.observation(s.env_state, key=k)),
                         reward=lambda: R(inn.reward(s.env_state, A(a), ns.env_state, key=k)), terminal=lambda: inn.terminal(s.env_state, key=k),
                         truncate=lambda: inn.truncate(s.env_state), transition_info=lambda: inn.transition_info(s.env_state, A(a), ns.env_state),
-                        state_info=lambda: inn.state_info(s.env_state), initial=lambda: inn.initial(key=k), action_mask=lambda: inn.action_mask(s.env_state, key=k))
+                        state_info=lambda: inn.state_info(s.env_state), initial=lambda: inn.initial(key=k), action_mask=lambda: (changes.get("mask") or (lambda mm: mm))(inn.action_mask(s.env_state, key=k)))
             r, sp = real[m](), spec[m]()
             return kit.trees_close(r, sp), dict(real=kit.tolist(r), expected=kit.tolist(sp))
         return kit.native_search(check, make_inputs, trials=4, ignore_keys=False)
     return replay
+
+
+def native_rescale_replay(model):
+    """R1: the real rescale_box on the counter-model's box (when finite and ordered), then on a family of asymmetric boxes."""
+    cands = []
+    try:
+        g = lambda nm, i: kit.model_float(model, f"{nm}[{i}]", None)
+        for n in (2, 1):
+            v = [[g(nm, i) for i in range(n)] for nm in ("low", "high", "min", "max")]
+            if all(t is not None for r in v for t in r) and all(v[0][i] < v[1][i] and v[2][i] < v[3][i] for i in range(n)):
+                cands.append(tuple(tuple(r) for r in v))
+                break
+    except Exception:
+        pass
+    cands += [((-2.0,), (2.0,), (0.0,), (1.0,)), ((0.0, -3.0), (10.0, 5.0), (-1.0, 2.0), (1.0, 3.0)), ((-1.0, -2.0), (1.0, 3.0), (-1.0, -1.0), (1.0, 1.0))]
+    for lo, hi, mn, mx in cands:
+        box = Box(jnp.array(lo, f32), jnp.array(hi, f32))
+        nb, fwd, bwd = rescale_box(box, jnp.array(mn, f32), jnp.array(mx, f32))
+        x = jnp.array([0.3 * (h - l) + l for l, h in zip(lo, hi)], f32)
+        obs = dict(forward_low=np.asarray(fwd(box.low)).tolist(), forward_high=np.asarray(fwd(box.high)).tolist(), backward_min=np.asarray(bwd(jnp.array(mn, f32))).tolist(),
+                   backward_max=np.asarray(bwd(jnp.array(mx, f32))).tolist(), backward_forward_x=np.asarray(bwd(fwd(x))).tolist(), x=np.asarray(x).tolist(),
+                   new_low=np.asarray(nb.low).tolist(), new_high=np.asarray(nb.high).tolist())
+        c = lambda a, b: np.allclose(np.asarray(a, np.float64), np.asarray(b, np.float64), rtol=1e-4, atol=1e-4)
+        if not (c(obs["forward_low"], mn) and c(obs["forward_high"], mx) and c(obs["backward_min"], lo) and c(obs["backward_max"], hi) and c(obs["backward_forward_x"], obs["x"])
+                and c(obs["new_low"], mn) and c(obs["new_high"], mx)):
+            return dict(reproduced=True, route="R1 (real rescale_box, concrete box)", inputs=dict(low=lo, high=hi, min=mn, max=mx), observed=obs)
+    return dict(reproduced=False, note=f"{len(cands)} concrete boxes: bounds map onto bounds, maps mutually inverse")
 
 
 def unit_rescale(S):
@@ -259,8 +286,40 @@ def unit_rescale(S):
         if not ok:
             bad.append(dict(low=lo, high=hi, min=mn, max=mx))
     S.bounded_check("rescale_box/bounds-onto-bounds", not bad, bound=f"{len(boxes)} concrete bounded boxes (seeded), exact rational evaluation of the extracted affine maps, tolerance 1e-5 for float32 coefficients",
-                    function=fn, what="backward(min)=low, backward(max)=high, forward(low)=min, forward(high)=max; new box = Box(min,max)", detail=bad[:3])
-    # symbolic part: the wrappers use the right direction and advertise the right space
+                    function=fn, what="backward(min)=low, backward(max)=high, forward(low)=min, forward(high)=max; new box = Box(min,max)", detail=bad[:3], replay=native_rescale_replay)
+    # symbolic part 1: rescale_box itself on arbitrary FINITE bounds (isfinite masks fixed to all-true during the trace; the Python asserts fork the trace)
+    from lvc.extract import fork_paths, eval_traced
+    for n in (1, 2):
+        ctx = Ctx()
+        low, high, mn, mx, x = [sym(ctx, nm, sd((n,), f32)) for nm in ("low", "high", "min", "max", "x")]
+
+        def prog(lo_, hi_, mn_, mx_, x_):
+            nb, fwd, bwd = rescale_box(Box(lo_, hi_), mn_, mx_)
+            return nb.low, nb.high, fwd(x_), bwd(x_), fwd(lo_), fwd(hi_), bwd(mn_), bwd(mx_), bwd(fwd(x_)), fwd(bwd(x_))
+        with extract.patched((jnp, "isfinite", lambda a: np.ones(jnp.shape(a), bool))):
+            paths = fork_paths(prog, (low, high, mn, mx, x), raises=(AssertionError,))
+        okp = [p for p in paths if p[0] is not None]
+        S.fact(f"rescale_box[n={n}]/one-accepting-path", len(okp) == 1 and len(paths) == 3, function=fn,
+               what="the two Python asserts (min <= max, low <= high) give exactly one accepting path; the others raise AssertionError", detail=[str(p[2]) for p in paths])
+        if len(okp) != 1:
+            continue
+        tr, dyn, decisions = okp[0]
+        conds, (nlo, nhi, fx, bx, flo, fhi, bmn, bmx, bfx, fbx) = eval_traced(ctx, tr, dyn)
+        pc = [ir.seq(c.scalar(), d) for c, d in zip(conds, decisions)]
+        ordered = sand(*[sand(low.at(i) <= high.at(i), mn.at(i) <= mx.at(i)) for i in range(n)])
+        S.prove(f"rescale_box[n={n}]/accepts-iff-ordered", ctx, sand(*pc) == ordered, function=fn, what="precondition: the asserts pass iff min <= max and low <= high component-wise")
+        strict = [sand(low.at(i) < high.at(i), mn.at(i) < mx.at(i)) for i in range(n)]
+        rp = native_rescale_replay
+        S.prove(f"rescale_box[n={n}]/new-box-is-min-max", ctx, sand(kit.tree_eq(nlo, mn), kit.tree_eq(nhi, mx)), hyps=pc, function=fn, replay=rp, what="the advertised box is Box(min, max)")
+        S.prove(f"rescale_box[n={n}]/forward-maps-bounds-onto-bounds", ctx, sand(kit.tree_eq(flo, mn), kit.tree_eq(fhi, mx)), hyps=pc + strict, function=fn, nl_budget_ms=5000, replay=rp,
+                what="for all finite low < high, min < max: forward(low) = min and forward(high) = max (over the reals)")
+        S.prove(f"rescale_box[n={n}]/backward-maps-bounds-onto-bounds", ctx, sand(kit.tree_eq(bmn, low), kit.tree_eq(bmx, high)), hyps=pc + strict, function=fn, nl_budget_ms=5000, replay=rp,
+                what="backward(min) = low and backward(max) = high")
+        S.prove(f"rescale_box[n={n}]/mutually-inverse", ctx, sand(kit.tree_eq(bfx, x), kit.tree_eq(fbx, x)), hyps=pc + strict, function=fn, nl_budget_ms=5000, replay=rp,
+                what="backward(forward(x)) = x and forward(backward(x)) = x for every x")
+        S.prove(f"rescale_box[n={n}]/monotone-affine", ctx, sand(*[z3.And(ir.zreal(fx.at(i)) - ir.zreal(flo.at(i)) == (ir.zreal(fhi.at(i)) - ir.zreal(flo.at(i))) * ((ir.zreal(x.at(i)) - ir.zreal(low.at(i))) / (ir.zreal(high.at(i)) - ir.zreal(low.at(i))))) for i in range(n)]),
+                hyps=pc + strict, function=fn, nl_budget_ms=5000, replay=rp, what="forward is the affine interpolation: (f(x) - f(low)) = (f(high) - f(low)) * (x - low)/(high - low)")
+    # symbolic part 2: the wrappers use the right direction and advertise the right space
     E = inner_env()
     ra = W.RescaleAction(E)
     ctx = Ctx()
@@ -273,7 +332,7 @@ def unit_rescale(S):
     okc = all(abs(float(c.as_fraction()) - l) < 1e-5 for c, l in zip(corner_lo, lows)) and all(abs(float(c.as_fraction()) - h) < 1e-5 for c, h in zip(corner_hi, highs))
     S.fact("RescaleAction/maps-new-bounds-onto-original", okc and bool(jnp.all(ra.action_space.low == -1.0)) and bool(jnp.all(ra.action_space.high == 1.0)),
            function="lerax.wrapper:RescaleAction.__init__", what="RescaleAction(min=-1,max=1): advertised Box(-1,1); func(-1) = low and func(1) = high of the inner box (direction new -> original)",
-           detail=dict(f_min=[str(c) for c in corner_lo], f_max=[str(c) for c in corner_hi]))
+           detail=dict(f_min=[str(c) for c in corner_lo], f_max=[str(c) for c in corner_hi]), replay=native_rescale_replay)
     # affinity: f(x) - f(0) is linear: second differences vanish
     ctx2 = Ctx()
     u = sym(ctx2, "u", sd((2,), f32))
